@@ -86,6 +86,59 @@ def canonL (M : Meta) (fs : List (Nat × Bytes)) : Bytes := le32 (presentWord fs
 /-- canonical options payload of a last-write map -/
 def canonical (M : Meta) (m : FMap) : Bytes := canonL M (fieldList M m)
 
+/-! ### headers with a chain of present words
+
+  A parsed header may carry more than one present word (bit 31 = another word follows; bit 29 / 30 announce a
+  radiotap / vendor namespace) and bytes the setters do not own: data of fields this table has no entry for, of
+  later namespaces, of vendor namespaces.  `Frame` is that part of a header; `layL M F fs` is the header in which the
+  fields `fs` of the *first* present word sit, in bit order, at their aligned offsets between the present words and
+  the foreign bytes.  `canonL M fs` is the special case of the empty frame. -/
+
+structure Frame where
+  /-- the bits of the first present word that are not fields of the table: undefined fields, namespace bits, bit 31 -/
+  hb : Nat
+  /-- the present words after the first one -/
+  wsb : Bytes
+  /-- everything after the fields of the first present word -/
+  tail : Bytes
+deriving DecidableEq, Repr
+
+def Frame.nil : Frame := { hb := 0, wsb := [], tail := [] }
+
+/-- offset, counted from the start of the radiotap header, of the first field -/
+def Frame.base (F : Frame) : Nat := 8 + F.wsb.length
+
+/-- number of present words after the first one -/
+def Frame.k (F : Frame) : Nat := F.wsb.length / 4
+
+/-- the last present word (meaningful when `0 < F.k`) -/
+def Frame.lastWord (F : Frame) : Nat := read32 F.wsb (4 * (F.k - 1))
+
+def layL (M : Meta) (F : Frame) (fs : List (Nat × Bytes)) : Bytes :=
+  le32 (presentWord fs ||| F.hb) ++ F.wsb ++ enc M fs F.base ++ F.tail
+
+/-- the frame is a well-formed chain: `hb` owns no table bit and fits 32 bits, the later words are whole, bit 31 is
+    set in every word but the last -/
+def Frame.ok (M : Meta) (F : Frame) : Prop :=
+  F.hb < 4294967296 ∧ (∀ c, c < M.max → F.hb.testBit c = false) ∧ F.wsb.length % 4 = 0 ∧
+  F.hb.testBit 31 = decide (0 < F.k) ∧
+  (∀ j, j < F.k - 1 → extSet (read32 F.wsb (4 * j)) = true) ∧
+  (0 < F.k → extSet F.lastWord = false)
+
+instance (M : Meta) (F : Frame) : Decidable (F.ok M) := by unfold Frame.ok; exact inferInstance
+
+/-- the last present word announces no field of the table: libtins' parser, which reads the fields of the first and
+    of the last present word, never walks into the foreign bytes -/
+def Frame.inert (M : Meta) (F : Frame) : Prop := 0 < F.k → ∀ c, c < M.max → F.lastWord.testBit c = false
+
+instance (M : Meta) (F : Frame) : Decidable (F.inert M) := by unfold Frame.inert; exact inferInstance
+
+/-- alignment of the fields above bit 0 divides 4, so the first field after a chain of present words needs no
+    padding unless it is field 0 -/
+def Meta.lowAlign (M : Meta) : Prop := ∀ b, b < M.max → 0 < b → 4 % M.align b = 0
+
+instance (M : Meta) : Decidable M.lowAlign := by unfold Meta.lowAlign; exact inferInstance
+
 /-- every written value has the size the standard gives its field -/
 def sized (M : Meta) (m : FMap) : Prop := ∀ b v, m b = some v → b < M.max ∧ v.length = M.size b
 
@@ -121,6 +174,29 @@ def decodeCanonical (M : Meta) (buf : Bytes) : Option (List (Nat × Bytes)) :=
   | none => none
 
 def mapOfList (fs : List (Nat × Bytes)) : FMap := lastWrite FMap.empty fs
+
+/-- index of the last present word of a chain that fits the buffer -/
+def chainLen : Nat → Bytes → Nat → Option Nat
+  | 0, _, _ => none
+  | fuel + 1, buf, i =>
+    if 4 * i + 4 ≤ buf.length then
+      if extSet (read32 buf (4 * i)) then chainLen fuel buf (i + 1) else some i
+    else none
+
+/-- split a parsed options payload into frame and first-word fields, when it is *well aligned*: the chain of present
+    words fits, every table field of the first word fits at its aligned offset, the padding bytes are zero — i.e.
+    the payload is exactly `layL M F fs` for a well-formed frame `F` -/
+def decodeLayout (M : Meta) (buf : Bytes) : Option (Frame × List (Nat × Bytes)) :=
+  match chainLen (buf.length / 4 + 1) buf 0 with
+  | none => none
+  | some k =>
+    let w0 := read32 buf 0
+    match decodeFields M buf w0 M.max 0 (8 + 4 * k) with
+    | none => none
+    | some fs =>
+      let F : Frame := { hb := w0 - w0 % 2 ^ M.max, wsb := (buf.drop 4).take (4 * k),
+                         tail := buf.drop (4 + 4 * k + (enc M fs (8 + 4 * k)).length) }
+      if layL M F fs == buf ∧ F.ok M then some (F, fs) else none
 
 /-! ### what a parser of an options buffer may report (radiotap standard; used by the oracle of `walk` / `skipto`) -/
 
